@@ -56,7 +56,7 @@ Init == /\ pc = "start" /\ m = m0
            \/ \E f \in SpecSrcs : \E w \in 1..MaxW : \E h \in 1..w : c = Mk("spec", f, f[7], f[8], SrcKind(f), w, h, 0)
            \/ \E f \in ResSrcs : \E tg \in Targets :
                  LET k == Mk("resamp", f, f[7], f[8], SrcKind(f), 0, 0, tg)
-                 IN  (SrcN(k) * k.target) \div Sr(k) <= MaxNum /\ c = k
+                 IN  ImplNum(k, SrcN(k)) <= MaxNum /\ c = k
 
 Stay == UNCHANGED c
 Iota(n) == [i \in 1..n |-> i - 1]
@@ -94,7 +94,7 @@ Axis      == /\ pc = "axis" /\ ~(m.len = 0 /\ ~EmptyGuard)
 
 (* ---- resample(source, target) ---- *)
 ResArith == /\ pc = "start" /\ c.kind = "resamp"
-            /\ m' = [m EXCEPT !.num = (SrcN(c) * c.target) \div Sr(c), !.t0 = SrcOff(c)]   \* int(times.size * target * step)
+            /\ m' = [m EXCEPT !.num = ImplNum(c, SrcN(c)), !.t0 = SrcOff(c)]
             /\ pc' = "res" /\ Stay
 ResRaise == /\ pc = "res" /\ ~(m.num >= 1 /\ SrcN(c) >= 2)                \* scipy: num must be positive; t[1] of a 1-sample axis
             /\ m' = [m EXCEPT !.raised = "ValueError"]
@@ -107,27 +107,20 @@ ResAxis  == /\ pc = "res" /\ m.num >= 1 /\ SrcN(c) >= 2
 
 (* ---- compute_spectrogram(source, w, h) ---- *)
 SpecArith == /\ pc = "start" /\ c.kind = "spec"
-             /\ LET np0 == (c.w * Sr(c)) \div c.tden                    \* int(window_size * samplerate)
-                IN  m' = [m EXCEPT !.np0 = np0,
-                                   !.np  = IF np0 > SrcN(c) THEN SrcN(c) ELSE np0,      \* scipy _triage_segments (warns)
-                                   !.nov = ((c.w - c.h) * Sr(c)) \div c.tden,           \* int((window_size - hop_size) * samplerate)
-                                   !.t0  = SrcOff(c)]
+             /\ m' = [m EXCEPT !.np0 = ImplNp0(c), !.np = ImplNp(c, SrcN(c)), !.nov = ImplNov(c), !.t0 = SrcOff(c)]
              /\ pc' = "triage" /\ Stay
-SpecRaise == /\ pc = "triage" /\ ~(m.np0 >= 1 /\ m.nov < m.np)          \* nperseg must be positive / noverlap must be less than nperseg
+SpecRaise == /\ pc = "triage" /\ ImplSpecRaises(c, SrcN(c)) = TRUE   \* (= TRUE: keeps TLC from splitting the action)            \* nperseg must be positive / noverlap must be less than nperseg
              /\ m' = [m EXCEPT !.raised = "ValueError"]
              /\ pc' = "raised" /\ Stay
-\* zero extension by np/2 on both sides, zero padding to a whole number of hops, one frame per hop;
 \* time unit 1/(sr*tden): one sample = tden, requested hop = h*sr; frequency unit sr/(np*npadv): bin k = k*npadv
-SpecFrames == /\ pc = "triage" /\ m.np0 >= 1 /\ m.nov < m.np
+SpecFrames == /\ pc = "triage" /\ ~ImplSpecRaises(c, SrcN(c))
               /\ LET hop   == m.np - m.nov
-                     L0    == SrcN(c) + 2 * (m.np \div 2)
-                     L     == L0 + (((0 - (L0 - m.np)) % hop) % m.np)
-                     F     == (L - m.np) \div hop + 1
+                     F     == ImplFrames(c, SrcN(c))
                      npadv == IF WinClamp THEN m.np ELSE m.np0           \* the nperseg the step attributes are computed from
                  IN  m' = [m EXCEPT !.len = F,
                                     !.d = [i \in 1..F |-> (i - 1) * hop * c.tden],
                                     !.step = IF SpecStep = "requested" THEN c.h * Sr(c) ELSE (npadv - m.nov) * c.tden,
-                                    !.fd = [k \in 1..(m.np \div 2 + 1) |-> (k - 1) * npadv],
+                                    !.fd = [k \in 1..ImplBins(c, SrcN(c)) |-> (k - 1) * npadv],
                                     !.fstep = m.np]
               /\ pc' = "done" /\ Stay
 
